@@ -112,6 +112,8 @@ var kernelList = []kernelSpec{
 	{"x/subaccount/keeper", "", "sumLockedBalance"},
 	{"x/reward/types", "Campaign", "CheckTS"},
 	{"utils", "", "PopStrAtIndex"},
+	{"x/ovm/types", "ProposalVotePayload", "Validate"},
+	{"x/ovm/types", "", "NewVote"},
 	{"x/ovm/types", "KeyVault", "SetLeader"},
 }
 
@@ -119,7 +121,7 @@ var kernelList = []kernelSpec{
 // functions taken to succeed: what they check is not modelled (denomination strings)
 var assumeOK = []kernelSpec{{"x/mint/types", "", "validateMintDenom"}}
 
-var extraStructs = []kernelSpec{{"x/bet/types", "Constraints", ""}, {"x/ovm/types", "PubkeysChangeProposalPayload", ""}, {"x/mint/types", "Phase", ""}, {"x/ovm/types", "Vote", ""}, {"x/market/types", "Odds", ""}}
+var extraStructs = []kernelSpec{{"x/ovm/types", "ProposalVotePayload", ""}, {"x/ovm/types", "MsgVotePubkeysChangeRequest", ""}, {"x/bet/types", "Constraints", ""}, {"x/ovm/types", "PubkeysChangeProposalPayload", ""}, {"x/mint/types", "Phase", ""}, {"x/ovm/types", "Vote", ""}, {"x/market/types", "Odds", ""}}
 
 // A stateful kernel: a function that reads and writes module state through a keeper.  The state it touches is a record (emitted as
 // S_<name>) and every keeper / context method it may call is mapped to an operation on that record; anything else fails the translation.
@@ -193,7 +195,19 @@ var settleOps = map[string]stateOp{
 	"settleParticipation":          {kind: "callerr", field: []string{"K_settle_settleParticipation"}},
 }
 
+// the vote handler: the ticket verifies under exactly one key (TicketKey, when TicketOK) and then carries VotePayload
+var voteOps = map[string]stateOp{
+	"GetKeyVault":                  {kind: "find", field: []string{"Vault", "VaultFound"}, args: []string{""}},
+	"verifyTicketWithKeyUnmarshal": {kind: "ticketkey", field: []string{"TicketOK", "TicketKey"}},
+	"GetPubkeysChangeProposal":     {kind: "findk", field: []string{"Active", "Id"}, args: []string{"types.ProposalStatus_PROPOSAL_STATUS_ACTIVE"}},
+	"SetPubkeysChangeProposal":     {kind: "upsert", field: []string{"Active", "Id"}},
+}
+
 var statefulList = []statefulSpec{{
+	recv: "msgServer", pkg: "x/ovm/keeper", name: "VotePubkeysChange", state: "vote", keeperPkg: "x/ovm/keeper", ops: voteOps, keeperTyp: "msgServer",
+	fields: []stateField{{"TicketOK", "bool"}, {"TicketKey", "Z"}, {"VotePayload", "G_ProposalVotePayload"}, {"Vault", "G_KeyVault"}, {"VaultFound", "bool"},
+		{"Active", "list G_PublicKeysChangeProposal"}},
+}, {
 	recv: "Keeper", pkg: "x/orderbook/keeper", name: "settleParticipation", state: "settle", keeperPkg: "x/orderbook/keeper", ops: settleOps,
 	fields: []stateField{{"Effects", "list (Z * Z * Z * Z)"}, {"Parts", "list G_OrderBookParticipation"}},
 }, {
@@ -422,6 +436,22 @@ func (c *fctx) stateOpOf(f *ast.SelectorExpr) (stateOp, bool) {
 		return op, ok
 	}
 	return stateOp{}, false
+}
+
+// withErr: translate a continuation knowing that the error variable `name` is nil (isNil) or non-nil; earlier knowledge about the same
+// variable (it is reused for several calls in a row) is suspended meanwhile and restored afterwards
+func (c *fctx) withErr(name string, isNil bool, f func() string) string {
+	if c.nilErr == nil {
+		c.nilErr = map[string]bool{}
+	}
+	if c.nonNil == nil {
+		c.nonNil = map[string]bool{}
+	}
+	oldNil, oldNon := c.nilErr[name], c.nonNil[name]
+	c.nilErr[name], c.nonNil[name] = isNil, !isNil
+	r := f()
+	c.nilErr[name], c.nonNil[name] = oldNil, oldNon
+	return r
 }
 
 // stateArgs: the non-context arguments of a state operation; for "move" the address arguments must be the named variables
@@ -1050,6 +1080,9 @@ func (c *fctx) call(e *ast.CallExpr) string {
 				}
 				if path == "github.com/cosmos/cosmos-sdk/types" && f.Sel.Name == "NewCoins" && len(args) == 1 {
 					return args[0] // one coin of the one denomination: its amount
+				}
+				if path == "strings" && f.Sel.Name == "TrimSpace" && len(args) == 1 {
+					return args[0] // identifiers stand for the trimmed strings
 				}
 				if path == "github.com/spf13/cast" && strings.HasPrefix(f.Sel.Name, "To") && len(args) == 1 && !strings.HasSuffix(f.Sel.Name, "E") &&
 					f.Sel.Name != "ToString" && f.Sel.Name != "ToBool" {
@@ -1717,6 +1750,39 @@ func (c *fctx) stmts(list []ast.Stmt) string {
 							if a, ok := s.Lhs[0].(*ast.Ident); ok {
 								return fmt.Sprintf("let '(g_st, %s) := %s in\n  %s", ident(a.Name), c.expr(call), rest())
 							}
+						case op.kind == "ticketkey" && len(s.Lhs) == 1:
+							if id, ok := s.Lhs[0].(*ast.Ident); ok && len(call.Args) == 4 {
+								u, uok := call.Args[2].(*ast.UnaryExpr)
+								var v *ast.Ident
+								if uok && u.Op == token.AND {
+									v, _ = u.X.(*ast.Ident)
+								}
+								if v == nil {
+									return c.fail("ticket operation: third argument is not the address of a variable")
+								}
+								want := "G_" + c.k.structOf(c.info.TypeOf(v))
+								field := ""
+								for _, f := range c.stFields {
+									if f.typ == want {
+										field = f.name
+									}
+								}
+								if field == "" {
+									return c.fail("ticket operation: no payload field of type %s in the state", want)
+								}
+								S := "S_" + c.state.state
+								key := c.expr(call.Args[3])
+								if c.nilErr == nil {
+									c.nilErr = map[string]bool{}
+								}
+								if c.nonNil == nil {
+									c.nonNil = map[string]bool{}
+								}
+								errB := c.withErr(id.Name, false, rest)
+								okB := c.withErr(id.Name, true, rest)
+								return fmt.Sprintf("(if negb ((%s_%s g_st) && (%s_%s g_st =? %s)) then %s else let %s := %s_%s g_st in\n  %s)",
+									S, op.field[0], S, op.field[1], key, errB, ident(v.Name), S, field, okB)
+							}
 						case op.kind == "ticket" && len(s.Lhs) == 1:
 							if id, ok := s.Lhs[0].(*ast.Ident); ok {
 								if c.nilErr == nil {
@@ -1725,15 +1791,8 @@ func (c *fctx) stmts(list []ast.Stmt) string {
 								if c.nonNil == nil {
 									c.nonNil = map[string]bool{}
 								}
-								c.nonNil[id.Name] = true
-								errB := rest()
-								delete(c.nonNil, id.Name)
-								return c.ticketOp(op, call, func() string {
-									c.nilErr[id.Name] = true
-									r := rest()
-									delete(c.nilErr, id.Name)
-									return r
-								}, errB)
+								errB := c.withErr(id.Name, false, rest)
+								return c.ticketOp(op, call, func() string { return c.withErr(id.Name, true, rest) }, errB)
 							}
 						}
 					}
@@ -1762,6 +1821,30 @@ func (c *fctx) stmts(list []ast.Stmt) string {
 				}
 			}
 		}
+		// err = f(...) / err = x.M(...) where the callee is a translated function returning only an error (a bool, true = nil)
+		if len(s.Lhs) == 1 && len(s.Rhs) == 1 && c.state != nil {
+			if call, ok := s.Rhs[0].(*ast.CallExpr); ok && c.info.TypeOf(s.Rhs[0]) != nil && c.info.TypeOf(s.Rhs[0]).String() == "error" {
+				var fn *types.Func
+				switch f := call.Fun.(type) {
+				case *ast.Ident:
+					fn, _ = c.info.Uses[f].(*types.Func)
+				case *ast.SelectorExpr:
+					fn, _ = c.info.Uses[f.Sel].(*types.Func)
+				}
+				if id, ok := s.Lhs[0].(*ast.Ident); ok && fn != nil && c.k.fn[fn] != "" && !c.k.mutFn[fn] {
+					if c.nilErr == nil {
+						c.nilErr = map[string]bool{}
+					}
+					if c.nonNil == nil {
+						c.nonNil = map[string]bool{}
+					}
+					callS := c.expr(call)
+					errB := c.withErr(id.Name, false, rest)
+					okB := c.withErr(id.Name, true, rest)
+					return fmt.Sprintf("(if negb %s then %s else %s)", callS, errB, okB)
+				}
+			}
+		}
 		// err = k.F(...) where F is another stateful kernel returning an error: the new state, or the error continuation
 		if len(s.Lhs) == 1 && len(s.Rhs) == 1 {
 			if call, ok := s.Rhs[0].(*ast.CallExpr); ok {
@@ -1775,12 +1858,8 @@ func (c *fctx) stmts(list []ast.Stmt) string {
 								c.nonNil = map[string]bool{}
 							}
 							callS := c.expr(call)
-							c.nonNil[id.Name] = true
-							errB := rest()
-							delete(c.nonNil, id.Name)
-							c.nilErr[id.Name] = true
-							okB := rest()
-							delete(c.nilErr, id.Name)
+							errB := c.withErr(id.Name, false, rest)
+							okB := c.withErr(id.Name, true, rest)
 							return fmt.Sprintf("match %s with\n  | Some g_st => %s\n  | None => %s\n  end", callS, okB, errB)
 						}
 					}
@@ -1800,12 +1879,8 @@ func (c *fctx) stmts(list []ast.Stmt) string {
 							if c.nonNil == nil {
 								c.nonNil = map[string]bool{}
 							}
-							c.nilErr[id.Name] = true
-							okB := rest()
-							delete(c.nilErr, id.Name)
-							c.nonNil[id.Name] = true
-							errB := rest()
-							delete(c.nonNil, id.Name)
+							okB := c.withErr(id.Name, true, rest)
+							errB := c.withErr(id.Name, false, rest)
 							return c.moveOp(op, args, okB, errB)
 						}
 					}
@@ -1822,8 +1897,7 @@ func (c *fctx) stmts(list []ast.Stmt) string {
 							if c.nilErr == nil {
 								c.nilErr = map[string]bool{}
 							}
-							c.nilErr[id.Name] = true
-							return c.applyStateOp(op, args, rest())
+							return c.applyStateOp(op, args, c.withErr(id.Name, true, rest))
 						}
 					}
 				}
